@@ -483,10 +483,6 @@ Proof.
   rewrite Z.mod_mod by lia. pose proof (Z.div_mod n 256 ltac:(lia)). lia.
 Qed.
 
-Lemma exec_read {S} st req (k : list Z -> prog S) kb :
-  exec (PRead st req k) kb =
-  let '(o, kb2, e) := exec (k (takeZ req kb)) (dropZ req kb) in (o, kb2, Rd st req (lenZ (takeZ req kb)) :: e).
-Proof. reflexivity. Qed.
 Lemma mread_head x t : mread (x :: t) 0 = Some x.
 Proof. reflexivity. Qed.
 
@@ -559,5 +555,109 @@ Proof.
   change (1 <? 0) with false. cbv iota.
   assert (NEQ : (lenZ [] =? lenZ fr) = false).
   { apply Z.eqb_neq. unfold fr. rewrite lenZ_app. lz. lia. }
+  rewrite NEQ. rewrite drain_nil. cbn [snd]. rewrite app_nil_r. exact Ve.
+Qed.
+
+(** ** framing round trip (RFC 5766 / draft-9 modes): a STUN message or ChannelData frame whose own length field is
+       consistent is delivered, with its padding, however the bytes are cut *)
+Definition rfc_consistent (m : list Z) : Prop :=
+  match m with
+  | b0 :: b1 :: b2 :: b3 :: _ => lenZ m = (if be16 b0 b1 <? 16384 then 20 else 4) + be16 b2 b3
+  | _ => False
+  end.
+
+Lemma rfc_frame_delivered c m : is_rfc c = true -> rfc_consistent m ->
+  let fr := m ++ repZ 0 (Z.to_nat (if lenZ m mod 4 =? 0 then 0 else 4 - lenZ m mod 4)) in
+  lenZ fr <= 65536 ->
+  exists e s1, exec (turn_body (turn_init c)) fr = (Some (s1, 1), [], e) /\ vis vis_msg e = [OMsg fr (-1)] /\ twf s1.
+Proof.
+  intros RC CO fr LF.
+  destruct m as [|b0 [|b1 [|b2 [|b3 m']]]]; try contradiction. simpl in CO.
+  set (n := lenZ (b0 :: b1 :: b2 :: b3 :: m')) in *.
+  set (padn := if n mod 4 =? 0 then 0 else 4 - n mod 4) in *.
+  assert (PN : 0 <= padn <= 3) by (unfold padn; pose proof (Z.mod_pos_bound n 4 ltac:(lia)); destruct (Z.eqb_spec (n mod 4) 0); lia).
+  set (pad := repZ 0 (Z.to_nat padn)) in *.
+  assert (LP : lenZ pad = padn) by (unfold pad; rewrite lenZ_repZ; lia).
+  set (rest := m' ++ pad).
+  assert (FR : fr = [b0; b1; b2; b3] ++ rest) by reflexivity.
+  assert (Ln : n = 4 + lenZ m') by (unfold n; lz; lia).
+  pose proof (lenZ_nonneg m') as Lm'.
+  assert (LR : lenZ rest = n - 4 + padn) by (unfold rest; rewrite lenZ_app; lia).
+  assert (LFR : lenZ fr = n + padn) by (rewrite FR, lenZ_app, LR; lz; lia).
+  set (buf := repZ 0 (Z.to_nat RECV_BUF_SIZE)).
+  assert (LB : lenZ buf = 65536) by (unfold buf; rewrite lenZ_repZ; reflexivity).
+  unfold turn_body. cbn [t_exp t_compat t_len turn_init]. change (0 =? 0) with true. cbv iota.
+  assert (HL : hdrlen c = Some 4) by (unfold hdrlen; rewrite RC; reflexivity). rewrite HL.
+  change (w64 (4 - 0)) with 4. rewrite exec_read.
+  assert (T4 : takeZ 4 fr = [b0; b1; b2; b3]).
+  { rewrite FR. rewrite takeZ_app_r by (lz; lia). lz. replace (4 - (1 + (1 + (1 + (1 + 0))))) with 0 by lia.
+    rewrite takeZ_nonpos by lia. reflexivity. }
+  assert (D4 : dropZ 4 fr = rest).
+  { rewrite FR. rewrite dropZ_app_r by (lz; lia). lz. replace (4 - (1 + (1 + (1 + (1 + 0))))) with 0 by lia. apply dropZ_nonpos. lia. }
+  rewrite T4, D4.
+  unfold turn_hdr_k. cbn [t_buf t_len t_compat turn_init]. change (repZ 0 (Z.to_nat RECV_BUF_SIZE)) with buf.
+  rewrite (mwrite_some buf 0 [b0; b1; b2; b3]) by (lz; lia).
+  rewrite (takeZ_nonpos 0 buf) by lia. lz. cbn [app].
+  set (tl := dropZ (0 + (1 + (1 + (1 + (1 + 0))))) buf).
+  assert (Ltl : lenZ tl = 65532) by (unfold tl; rewrite lenZ_dropZ; lia).
+  change (0 + (1 + (1 + (1 + (1 + 0)))) <? 4) with false. cbv iota.
+  unfold turn_header.
+  assert (M0 : mread (b0 :: b1 :: b2 :: b3 :: tl) 0 = Some b0) by reflexivity.
+  assert (M1 : mread (b0 :: b1 :: b2 :: b3 :: tl) 1 = Some b1) by reflexivity.
+  assert (M2 : mread (b0 :: b1 :: b2 :: b3 :: tl) 2 = Some b2) by reflexivity.
+  assert (M3 : mread (b0 :: b1 :: b2 :: b3 :: tl) 3 = Some b3) by reflexivity.
+  rewrite M0, M1, M2, M3. rewrite RC.
+  rewrite frame_start_exec.
+  set (E := (if be16 b0 b1 <? 16384 then 20 else 4) + be16 b2 b3) in *.
+  assert (EN : E = n) by (symmetry; exact CO).
+  replace (0 + (1 + (1 + (1 + (1 + 0))))) with 4 by lia.
+  set (s2 := {| t_compat := c; t_buf := b0 :: b1 :: b2 :: b3 :: tl; t_len := 4; t_exp := E |}).
+  assert (PD : padlen c E = padn) by (unfold padlen, padn; rewrite RC, EN; reflexivity).
+  assert (TOT : turn_tot s2 = n + padn).
+  { unfold turn_tot. cbn [t_exp t_compat s2]. rewrite PD, EN. rewrite w32_small; lia. }
+  unfold turn_payload. rewrite TOT. cbn [t_len s2]. rewrite w64_small by (unfold W64; lia).
+  rewrite exec_read.
+  rewrite (takeZ_all (n + padn - 4) rest) by lia. rewrite (dropZ_all (n + padn - 4) rest) by lia.
+  unfold turn_payload_k. cbn [t_buf t_len t_compat t_exp s2].
+  rewrite (mwrite_some (b0 :: b1 :: b2 :: b3 :: tl) 4 rest) by (lz; lia).
+  assert (TK : takeZ 4 (b0 :: b1 :: b2 :: b3 :: tl) = [b0; b1; b2; b3]).
+  { change (b0 :: b1 :: b2 :: b3 :: tl) with ([b0; b1; b2; b3] ++ tl). rewrite takeZ_app_l by (lz; lia). apply takeZ_all. lz. lia. }
+  rewrite TK. rewrite LR.
+  replace (4 + (n - 4 + padn)) with (n + padn) by lia. rewrite Z.eqb_refl.
+  set (after := dropZ (n + padn) (b0 :: b1 :: b2 :: b3 :: tl)).
+  assert (BUF2 : [b0; b1; b2; b3] ++ rest ++ after = fr ++ after) by (rewrite FR, <- app_assoc; reflexivity).
+  rewrite BUF2.
+  assert (MR : mreadn (fr ++ after) 0 (n + padn) = Some fr).
+  { unfold mreadn. rewrite fits_spec, lenZ_app, LFR. pose proof (lenZ_nonneg after).
+    destruct (Z.leb_spec 0 0); [|lia]. destruct (Z.leb_spec 0 (n + padn)); [|lia].
+    destruct (Z.leb_spec (0 + (n + padn)) (n + padn + lenZ after)); [|lia]. cbn [andb].
+    rewrite (dropZ_nonpos 0) by lia. rewrite takeZ_app_l by lia. rewrite takeZ_all by lia. reflexivity. }
+  rewrite MR. rewrite (takeZ_all UPCAP fr) by (unfold UPCAP; lia). rewrite LFR.
+  destruct (Z.ltb_spec 0 (n + padn)); [|lia]. simpl exec.
+  eexists _, _. split; [reflexivity|]. split; [reflexivity|].
+  unfold twf; cbn [t_len t_exp t_compat]. repeat split; try lia.
+  intros _ hl Hh. destruct (hdrlen_cases _ _ Hh); lia.
+Qed.
+
+Theorem turn_roundtrip_rfc c bufs cs : is_rfc c = true -> rfc_consistent (concat bufs) ->
+  lenZ (turn_frame c bufs) <= 65536 -> concat cs = turn_frame c bufs ->
+  vis vis_msg (snd (run turn_body (alive (turn_init c)) cs)) = [OMsg (turn_frame c bufs) (-1)].
+Proof.
+  intros RC CO LF Cc. set (m := concat bufs) in *.
+  destruct (turn_seg_independent (turn_init c) cs (twf_init c)) as [_ V]. rewrite V, Cc.
+  assert (NG : (c =? GOOGLE) = false).
+  { unfold is_rfc in RC. apply orb_true_iff in RC. destruct RC as [X|X]; apply Z.eqb_eq in X; subst c; reflexivity. }
+  assert (TF : turn_frame c bufs = m ++ repZ 0 (Z.to_nat (if lenZ m mod 4 =? 0 then 0 else 4 - lenZ m mod 4))).
+  { unfold turn_frame. rewrite NG, RC. reflexivity. }
+  rewrite TF in *.
+  destruct (rfc_frame_delivered c m RC CO LF) as (e & s1 & E & Ve & W).
+  set (fr := m ++ repZ 0 (Z.to_nat (if lenZ m mod 4 =? 0 then 0 else 4 - lenZ m mod 4))) in *.
+  unfold feed, alive. cbn [dead inner]. change (0 =? 0) with true. cbv iota.
+  assert (NE : fr <> []).
+  { unfold fr. destruct m as [|x t]; [contradiction|]. discriminate. }
+  destruct fr as [|x t] eqn:FR; [congruence|]. simpl length. rewrite drain_step by discriminate. rewrite E.
+  change (1 <? 0) with false. cbv iota.
+  assert (NEQ : (lenZ [] =? lenZ (x :: t)) = false).
+  { apply Z.eqb_neq. lz. pose proof (lenZ_nonneg t). lia. }
   rewrite NEQ. rewrite drain_nil. cbn [snd]. rewrite app_nil_r. exact Ve.
 Qed.
